@@ -139,6 +139,9 @@ public:
         {
           found_named_arg = true;
         }
+
+        // pos is already past the closing '}', do not skip the character that follows it
+        continue;
       }
       ++pos;
     }
